@@ -56,6 +56,19 @@ class SymValue:
         return str(self)
 
 
+class EvalValue:
+    """what model.eval(expr) returns: the value of the expression in the model, as a term"""
+
+    def __init__(self, term):
+        self.term = term
+
+    def as_long(self):
+        return self.term
+
+    def __str__(self):
+        return str(self.term)
+
+
 class SymModel:
     def __init__(self, solver, index, snapshot):
         self.solver, self.index, self.snapshot = solver, index, snapshot
@@ -72,6 +85,8 @@ class SymModel:
         name = var.decl().name()
         if name in self.mapping:
             return self.mapping[name]
+        if name.startswith(("p_", "m@", "__choice", "asst_")):
+            return var  # a parameter of the problem (or a symbol of the harness), not a variable of the model
         # a variable the stack does not mention: unconstrained
         s = z3.Bool(f"m@{self.index}@{name}") if z3.is_bool(var) else z3.Int(f"m@{self.index}@{name}")
         self.mapping[name] = s
@@ -108,7 +123,7 @@ class SymModel:
         consts, _ = formula.constants([e])
         for n, c in consts.items():
             subs.append((c, self._sym(c)))
-        return z3.substitute(e, *subs) if subs else e
+        return EvalValue(z3.substitute(e, *subs) if subs else e)
 
     def decls(self):
         return []
